@@ -1,0 +1,35 @@
+//go:build verif
+
+// Verification hooks (build tag verif). This file only adds exported pass-throughs to
+// existing unexported functionality; it changes no behaviour and is absent from normal
+// builds.
+
+package cesium
+
+import (
+	"context"
+
+	"github.com/synnaxlabs/cesium/internal/unary"
+)
+
+// VerifGarbageCollect runs one synchronous garbage collection pass over every unary
+// channel, exactly as the background GC ticker does.
+func (db *DB) VerifGarbageCollect(ctx context.Context) error {
+	return db.garbageCollect(ctx, db.gcCfg.MaxGoroutine)
+}
+
+// WithStreamingConfig sets the relay's streaming configuration.
+func WithStreamingConfig(cfg DBStreamingConfig) Option {
+	return func(o *options) { o.streamingConfig = cfg }
+}
+
+// VerifUnary returns the unary database backing the given channel, if any.
+func (db *DB) VerifUnary(key ChannelKey) (*unary.DB, bool) {
+	db.mu.RLock()
+	defer db.mu.RUnlock()
+	u, ok := db.mu.dbs.unary[key]
+	if !ok {
+		return nil, false
+	}
+	return &u, true
+}
